@@ -264,6 +264,12 @@ func (p *poller) readWriteLoop() {
 							c.onConnected = nil
 							c.resetRead()
 						}
+						// EPOLLONESHOT disabled the fd when this event was reported;
+						// if there is no reading event that re-arms it below, do it here,
+						// or a flush that stopped at EAGAIN leaves the fd disabled for ever.
+						if isOneshot && ev.Events&epollEventsRead == 0 {
+							c.ResetPollerEvent()
+						}
 					}
 
 					if ev.Events&epollEventsRead != 0 {
